@@ -1,8 +1,8 @@
 SPECIFICATION Spec
 CONSTANTS MaxN = 2
   LenProfiles <- LensQuick
-  Forms = {"seq", "source", "seq_calter", "source_calter", "seq_malter", "source_malter"}
-  StopKinds = {"close", "abandon"}
+  Forms <- FormsQuick
+  StopKinds = {"close"}
   Scenarios <- ScenQuick
   KeepHistory = FALSE
   Design = "final_name"
